@@ -125,6 +125,7 @@ def opFireExpiry (s : State) : State :=
 inductive UpdStep where
   | set (b : String) | del | cancel | err | retry | exp (e : Nat) (b : Option String)
   | delif (b : String)     -- a callback that looks at what it is shown: delete if the body is `b`, else cancel
+  | setifnil (b : String)  -- … store `b` if it is shown no document, else cancel
   deriving Repr, Inhabited
 
 def showOpt (v : Option String) : String := match v with | none => "~" | some s => "=" ++ s
@@ -151,6 +152,7 @@ def opUpdate (fuel : Nat) (s : State) (c k : String) (exp : Nat) (steps : List U
     | .set b => write (some b) exp
     | .del => write none exp
     | .delif b => if raw = some b then write none exp else (s, { calls := calls, seen := seen })
+    | .setifnil b => if raw = none then write (some b) exp else (s, { calls := calls, seen := seen })
     | .exp e b => write (match b with | some x => some x | none => raw) e
 
 inductive WuStep where
